@@ -12,7 +12,8 @@
 EXTENDS Naturals, Integers, Sequences, FiniteSets, TLC
 
 CONSTANTS TW, PW,          \* bit widths (scaled for TLC)
-          NDev             \* number of SubDevices in the group
+          NDev,            \* number of SubDevices in the group
+          WideSum          \* TRUE: the sum t + d is formed in a wider type (after the "fix:" commit)
 
 Pow2(n) == 2 ^ n
 TMax == Pow2(TW) - 1
@@ -24,7 +25,8 @@ PMax == Pow2(PW) - 1
 \* configure_dc_sync: Err if period or delay do not fit PW bits; the sum t + d is formed in TW bits
 SetupStart(t, d, p) ==
     IF p > PMax \/ d > PMax THEN [res |-> "range"]
-    ELSE IF t + d > TMax THEN [res |-> "overflow"]          \* panic (checked) / wrap (unchecked)
+    ELSE IF ~WideSum /\ t + d > TMax THEN [res |-> "overflow"]     \* panic (checked) / wrap (unchecked)
+    ELSE IF ((t + d) \div p) * p > TMax THEN [res |-> "range"]     \* start time does not fit the register
     ELSE [res |-> "ok", start |-> ((t + d) \div p) * p]
 
 \* what the property asks for: the multiple of p in (t + d - p, t + d]
@@ -95,6 +97,10 @@ StartIsMultipleInInterval ==
 
 RangeRejected ==
     phase = "done" /\ hasRef /\ (p > PMax \/ d > PMax) => result = "range"
+
+\* nothing else is rejected as long as the start time is representable
+OnlyRangeRejected ==
+    phase = "done" /\ hasRef /\ p <= PMax /\ d <= PMax /\ WantedStart(t, d, p) <= TMax => result = "ok"
 
 NoReferenceRejected == phase = "done" /\ ~hasRef => result = "noreference"
 
